@@ -25,7 +25,7 @@ LEVEL_NOTE = ('trusted: CPython ast positions, tokenize; ownership rules for par
 RULE = ('enum: case = (program, node path, query) or (program, rectangle, function); non-trivial = distinct located nodes / '
         'rectangles with a non-None answer; states = distinct (program, node); traces = answers compared with the oracle')
 ASSUMPTIONS = ['read-only', 'brute force for find_* ranges over the nodes of walk("loc") (validated by C14)']
-BOUNDS = {'quick': '137 programs; every node; extents of the roots of 468 undelimited multi-line fragments; the same laws on every tree reached by one edit (comment put, replace, remove, insert) after all cacheable queries; rectangles with token-boundary corners on programs <= 40 tokens',
+BOUNDS = {'quick': '145 programs; every node; extents of the roots of 468 undelimited multi-line fragments; the same laws on every tree reached by one edit (comment put, replace, remove, insert) after all cacheable queries; rectangles with token-boundary corners on programs <= 40 tokens',
           'thorough': 'quick + rectangles with corners at token boundaries +-1 + corpus sweep of /repo/src/fst/*.py (nodes only)'}
 
 PARS = [
@@ -89,7 +89,17 @@ DECOS = [  # several decorators with nested calls above a def / class (edits ins
     "@app.route(prefix('/users'), methods=['GET'])\n@login_required\n@cache(60)\ndef view(): pass",
     "class K:\n    @d1(a(b), c)\n    @d2\n    class I(B): x = 1",
 ]
-PROGS = BASE + EXTRA + TRICKY + PARS + LOCS + MULTILINE + FSTRDBG + DECOS
+MLFIRST = [  # list-valued fields whose FIRST element spans several lines (the special slice parse modes scan past it)
+    "with open(p,\n     'r') as s, open(d) as o: pass",
+    "x = [i for i in f(\n  a) if i for j in k]",
+    "def f[T: (\n int), *U](): pass",
+    "@a(\n  b)\n@c\ndef g(): pass",
+    "a[\n 0] = b = c",
+    "try: pass\nexcept (A,\n  B): pass\nexcept C: pass",
+    "match s:\n case [1,\n  2]: pass\n case _: pass",
+    "f(g(\n  1), *h, k=2)\nimport a.\\\n b as c, d",
+]
+PROGS = BASE + EXTRA + TRICKY + PARS + LOCS + MULTILINE + FSTRDBG + DECOS + MLFIRST
 for _p in PROGS:
     ast.parse(_p)
 
